@@ -60,6 +60,14 @@ def run(prog: Program, res: Result, tier: str) -> None:
             return isinstance(w, ast.Call) and dotted(w.func) == "np.where" and len(w.args) == 3 and norm(w.args[1]) in ("1", "1.0") and \
                 norm(w.args[2]) == raw and zero_test(w.args[0], raw)
 
+        def some(a: ast.AST):
+            """Z of `np.any(Z)` / `Z.any()`."""
+            if isinstance(a, ast.Call) and dotted(a.func) in ("np.any", "np.sometrue") and len(a.args) == 1:
+                return a.args[0]
+            if isinstance(a, ast.Call) and isinstance(a.func, ast.Attribute) and a.func.attr == "any" and not a.args and not a.keywords:
+                return a.func.value
+            return None
+
         ok = False
         why = ""
         if isinstance(ex, ast.IfExp):
@@ -71,7 +79,7 @@ def run(prog: Program, res: Result, tier: str) -> None:
                     anyz = t.operand if (body is ex.orelse and isinstance(t, ast.UnaryOp) and isinstance(t.op, ast.Not)) else t
                     if body is ex.orelse and anyz is t:
                         continue
-                    ok = isinstance(anyz, ast.Call) and dotted(anyz.func) in ("np.any", "np.sometrue") and len(anyz.args) == 1 and zero_test(anyz.args[0], raw)
+                    ok = some(anyz) is not None and zero_test(some(anyz), raw)
                     if not ok:
                         why = "the zero-scale replacement is not applied exactly when some scale is (close to) zero"
         elif isinstance(ex, ast.Call):
@@ -88,7 +96,7 @@ def run(prog: Program, res: Result, tier: str) -> None:
                 if isinstance(g, ast.If) and not g.orelse and fixes[0].stmt in g.body:
                     gn = cfg.node_for(g)
                     anyz = g.test
-                    zarg = anyz.args[0] if isinstance(anyz, ast.Call) and dotted(anyz.func) in ("np.any", "np.sometrue") and len(anyz.args) == 1 else None
+                    zarg = some(anyz)
                     zx = flow.expand(zarg, gn, stop={den.id}) if zarg is not None else None
                     wx = flow.expand(fixes[0].value, fixes[0].node, stop={den.id})
                     same_value = {id(d) for d in flow.reaching(den.id, gn)} == {id(d) for d in prior}
